@@ -157,6 +157,134 @@ theorem members_classifyMerchants {μ : Type} (test : μ → Section → Bool) (
   funext m
   exact filter_unique_name test m secs s hs hd
 
+/-! ### the keys of the result dictionary; the HTML report's sections dictionary -/
+
+theorem lookup_isSome_eq_contains {β : Type} (d : List (String × β)) (k : String) :
+    (d.lookup k).isSome = (d.map (·.1)).contains k := by
+  induction d with
+  | nil => rfl
+  | cons kv d ih =>
+    obtain ⟨k', x⟩ := kv
+    by_cases h : k = k'
+    · subst h; simp [List.lookup_cons]
+    · have hb : (k == k') = false := by simpa using h
+      simp only [List.lookup_cons, hb, List.map_cons, List.contains_cons, Bool.false_or]
+      exact ih
+
+theorem keys_appendAt {α : Type} (name : String) (x : α) (l : List (String × List α)) :
+    (appendAt name x l).map (·.1) = l.map (·.1) := by
+  induction l with
+  | nil => rfl
+  | cons kv rest ih =>
+    obtain ⟨k, xs⟩ := kv
+    unfold appendAt
+    by_cases h : (k == name) = true
+    · simp [h]
+    · simp [h, ih]
+
+theorem keys_classifyMerchants {μ : Type} (test : μ → Section → Bool) (secs : List Section) (ms : List μ) :
+    (classifyMerchants test secs ms).map (·.1) = (initResult (α := μ) (secs.map (·.name))).map (·.1) := by
+  unfold classifyMerchants
+  generalize initResult (α := μ) (secs.map (·.name)) = acc
+  induction ms generalizing acc with
+  | nil => rfl
+  | cons m ms ih =>
+    rw [List.foldl_cons, ih]
+    generalize secs = ss
+    induction ss generalizing acc with
+    | nil => rfl
+    | cons s ss ih2 =>
+      rw [List.foldl_cons, ih2]
+      by_cases h : test m s = true <;> simp [h, keys_appendAt]
+
+theorem keys_initResult_nodup {α : Type} (names : List String) :
+    ((initResult (α := α) names).map (·.1)).Nodup := by
+  unfold initResult
+  suffices h : ∀ acc : List (String × List α), (acc.map (·.1)).Nodup →
+      ((names.foldl (fun acc n => if (acc.lookup n).isSome then acc else acc ++ [(n, [])]) acc).map (·.1)).Nodup by
+    exact h [] (by simp)
+  induction names with
+  | nil => intro acc h; exact h
+  | cons n names ih =>
+    intro acc h
+    rw [List.foldl_cons]
+    apply ih
+    by_cases hs : (acc.lookup n).isSome = true
+    · simpa [hs] using h
+    · have hn : n ∉ acc.map (·.1) := by
+        rw [lookup_isSome_eq_contains] at hs
+        simpa using hs
+      simp only [hs, Bool.false_eq_true, if_false, List.map_append, List.map_cons, List.map_nil]
+      rw [List.nodup_append]
+      refine ⟨h, by simp, ?_⟩
+      intro a ha b hb
+      simp only [List.mem_singleton] at hb
+      subst hb
+      intro e; subst e; exact hn ha
+
+theorem keys_classifyMerchants_nodup {μ : Type} (test : μ → Section → Bool) (secs : List Section) (ms : List μ) :
+    ((classifyMerchants test secs ms).map (·.1)).Nodup := by
+  rw [keys_classifyMerchants]; exact keys_initResult_nodup _
+
+theorem setKey_fresh {β : Type} (k : String) (v : β) (d : List (String × β)) (h : k ∉ d.map (·.1)) :
+    setKey k v d = d ++ [(k, v)] := by
+  unfold setKey
+  have : (d.lookup k).isSome = false := by
+    rw [lookup_isSome_eq_contains]; simpa using h
+  simp [this]
+
+/-- when no two views WITH MEMBERS share an id, the data holds exactly those views, in order, each under its
+own id with its own title and merchants -/
+theorem htmlSections_fold {α : Type} (idOf : String → String) (r : List (String × List α))
+    (acc : List (String × (String × List α)))
+    (h : (acc.map (·.1) ++ (r.filter (fun p => !p.2.isEmpty)).map (fun p => idOf p.1)).Nodup) :
+    r.foldl (fun d p => if p.2.isEmpty then d else setKey (idOf p.1) (p.1, p.2) d) acc =
+      acc ++ (r.filter (fun p => !p.2.isEmpty)).map (fun p => (idOf p.1, (p.1, p.2))) := by
+  induction r generalizing acc with
+  | nil => simp
+  | cons p r ih =>
+    rw [List.foldl_cons]
+    by_cases he : p.2.isEmpty = true
+    · simp only [he, if_true, List.filter_cons, Bool.not_true, Bool.false_eq_true, if_false] at h ⊢
+      exact ih acc h
+    · have he' : p.2.isEmpty = false := by simpa using he
+      simp only [he', Bool.false_eq_true, if_false, List.filter_cons, Bool.not_false, if_true, List.map_cons] at h ⊢
+      have hfresh : idOf p.1 ∉ acc.map (·.1) := by
+        intro hin
+        rw [List.nodup_append] at h
+        exact h.2.2 _ hin _ (List.mem_cons_self ..) rfl
+      rw [setKey_fresh _ _ _ hfresh, ih]
+      · simp
+      · simpa [List.append_assoc] using h
+
+theorem lookup_filter_of_nodup {α : Type} (r : List (String × List α)) (name : String)
+    (hk : (r.map (·.1)).Nodup) :
+    ((r.filter (fun p => !p.2.isEmpty)).lookup name).getD [] = (r.lookup name).getD [] := by
+  induction r with
+  | nil => rfl
+  | cons p r ih =>
+    obtain ⟨k, xs⟩ := p
+    simp only [List.map_cons, List.nodup_cons] at hk
+    by_cases hname : name = k
+    · subst hname
+      by_cases he : xs.isEmpty = true
+      · have hnone : (r.filter (fun p => !p.2.isEmpty)).lookup name = none := by
+          rw [← Option.not_isSome_iff_eq_none, lookup_isSome_eq_contains]
+          intro hc
+          have : name ∈ (r.filter (fun p => !p.2.isEmpty)).map (·.1) := by simpa using hc
+          obtain ⟨q, hq, e⟩ := List.mem_map.mp this
+          exact hk.1 (List.mem_map.mpr ⟨q, (List.mem_filter.mp hq).1, e⟩)
+        have hx : xs = [] := by simpa using he
+        subst hx
+        simp [hnone]
+      · simp [he]
+    · have hb : (name == k) = false := by simpa using hname
+      by_cases he : xs.isEmpty = true
+      · simp only [List.filter_cons, he, Bool.not_true, Bool.false_eq_true, if_false, List.lookup_cons, hb]
+        exact ih hk.2
+      · simp only [List.filter_cons, he, Bool.not_false, if_true, List.lookup_cons, hb]
+        simpa [he] using ih hk.2
+
 /-! ### exact sums -/
 
 theorem sumGo_ints (xs : List Int) (a : Int) (vals : List Val) (has : Bool) :
